@@ -51,6 +51,7 @@ let rec print_sexp (b : Buffer.t) (x : sexp) : unit =
 
 let table : (string * (sexp -> sexp)) list = [
   ("C12", run_C12);
+  ("C10", run_C10);
 ]
 
 let () =
